@@ -148,7 +148,7 @@ def runtime_part(run, tier):
                 bad = ("backward.leaf_gradient", "after one sweep per head the leaf holds %s, the sum of the heads' derivatives is %s" % (cfg["grad"], cfg["expected"]))
             if bad:
                 run.violation(bad[0], bad[1], key=dict(key, clause="multi_root"), replay={"cmd": j["cmd"], "spec": spec, "result": cfg})
-    for mode in ("plain", "no_grad", "no_grad_reused", "plain_varying", "no_grad_varying", "plain_named", "no_grad_named", "plain_views", "no_grad_views", "no_grad_logging"):
+    for mode in ("plain", "no_grad", "no_grad_reused", "plain_varying", "no_grad_varying", "plain_named", "no_grad_named", "plain_views", "no_grad_views", "no_grad_logging", "no_grad_inner_exception"):
         spec = {"kind": "untracked", "mode": mode, "loops": LOOPS}
         j = deep.run_job(spec, timeout=300)
         if j["status"] != "ok":
